@@ -195,7 +195,7 @@ def mc_cobsdec(ctx):
 
 def mc_crc(ctx):
     for alg, ml, mb, stride in ctx.pick([("smbus", 2, 8, 997), ("maxim", 2, 8, 997), ("xmodem", 2, 9, 1499)],
-                                        [("smbus", 2, 8, 61), ("maxim", 2, 8, 61), ("smbus", 3, 8, 997), ("xmodem", 2, 12, 499), ("sdlc", 2, 12, 499)]):
+                                        [("smbus", 2, 8, 61), ("maxim", 2, 8, 61), ("smbus", 3, 8, 99991), ("xmodem", 2, 10, 997), ("sdlc", 2, 10, 997)]):
         tlc_mc(ctx, f"crc-{alg}-{ml}", "MC_Crc", tmpl("MC_Crc", Alg=alg, MsgLen=ml, MaxBurst=mb, Stride=stride), workers=12, timeout=ctx.pick(600, 7200))
 
 
